@@ -4,7 +4,7 @@ Model of the nearest-center assignment and per-trajectory bookkeeping (property 
 
 Mirrors, as written:
 * `enspara/cluster/util.py` `assign_to_nearest_center` L186-205 (both branches),
-  `find_cluster_centers` L228-242, `ClusterResult.partition` L135-156,
+  `find_cluster_centers` L228-247, `ClusterResult.partition` L135-156,
   `compute_batches` L556-566, `batch_reassign` L594-649 (bookkeeping only),
   `MolecularClusterMixin.predict` L74-84;
 * `enspara/ra/ra.py` `partition_indices` L231-242, `partition_list` L364-376,
@@ -81,7 +81,7 @@ def insertUniq (x : Int) : List Int → List Int
 /-- `np.unique`: ascending, no repetitions. -/
 def uniqueSorted (l : List Int) : List Int := l.foldr insertUniq []
 
-/-- L237-238 fused: `assigned_frames = np.where(mask)[0]` (ascending frame ids),
+/-- L242-243 fused: `assigned_frames = np.where(mask)[0]` (ascending frame ids),
 `assigned_frames[np.argmin(distances[assigned_frames])]` = the first frame among the first `n`
 satisfying `p` whose distance is minimal; `none` when no frame satisfies `p`
 (`np.argmin` of an empty array raises). -/
@@ -102,7 +102,10 @@ def centersFor (n : Nat) (a : Nat → Int) (d : Nat → ERat) : List Int → Exc
       | .error e => .error e
       | .ok ms => .ok (m :: ms)
 
-/-- `find_cluster_centers(assignments, distances)`; `n = len(assignments)`, `nd = len(distances)`. -/
+/-- `find_cluster_centers(assignments, distances)`; `n = len(assignments)`, `nd = len(distances)`.
+Labels are `Int` and frame indices `Nat` here, i.e. the result array holds frame indices of full
+width whatever dtype/container the labels come in (L234-239: `np.asarray`, `dtype=int`); the
+correspondence drives int8…int64/uint8 label arrays and python lists against this. -/
 def findClusterCenters (n : Nat) (a : Nat → Int) (nd : Nat) (d : Nat → ERat) :
     Except Err (List Nat) :=
   if nd ≠ n then .error .dataInvalid
